@@ -153,6 +153,13 @@ func Bytes(data any, args ...any) []byte {
 	if wr == nil {
 		wr, _ = writerPool.Get().(*Writer)
 		defer writerPool.Put(wr)
+		// The pooled Writer goes back to the pool and will be used by other
+		// callers so its buffer can not be handed out.
+		b := wr.MustSEN(data)
+		out := make([]byte, len(b))
+		copy(out, b)
+
+		return out
 	}
 	return wr.MustSEN(data)
 }
